@@ -202,7 +202,7 @@ func vfGenStallSpec(idx int, seed uint64) vfSpec {
 	r := vfNewRand(vfHash(seed, uint64(idx), 0xC02))
 	sp := vfGenTransferSpec("C02", idx, seed^0x22, 0, 200)
 	sp.ID = fmt.Sprintf("C02-stall-%d", idx)
-	kinds := []string{"blackout", "blackout", "sackloss", "zerowindow", "collapse", "reorder-span", "tinybuf", "many-streams", "oneway"}
+	kinds := []string{"blackout", "blackout", "sackloss", "zerowindow", "collapse", "reorder-span", "tinybuf", "many-streams", "oneway", "zerowin-hole"}
 	sp.Kind = kinds[idx%len(kinds)]
 	sp.Link = vfLinkCfg{DelayUs: int64(r.Pick(5000, 10000, 20000))}
 	if r.Intn(2) == 0 {
@@ -239,6 +239,27 @@ func vfGenStallSpec(idx int, seed uint64) vfSpec {
 		}
 		sp.Link.LossPm = r.Pick(0, 0, 50)
 		sp.Link.HealUs = 0
+	case "zerowin-hole":
+		// one TSN is lost several times while everything behind it arrives: the receive buffer fills with data
+		// that cannot be delivered, the window closes, and the retransmitted gap filler must still be accepted
+		sp.Roles = []string{"cs", "cc"}[r.Intn(2)]
+		sp.B.RecvBuf = uint32(r.Pick(4096, 8192, 16384)) //nolint:gosec
+		sp.A.MTU, sp.B.MTU = 0, 0
+		// message size divides the buffer, SACKs are reordered and duplicated: a stale SACK makes the sender
+		// overshoot by exactly the hole's size, so that the credit is 0 when the gap filler finally arrives
+		sp.Streams = []vfStreamCfg{{SID: 1, Dir: 0, NMsgs: 80 + r.Intn(100), SizeMode: []string{"q256", "q256", "small"}[r.Intn(3)], Reader: "fast"}}
+		sp.A.MaxMsg = 1000
+		sp.Link.JitterUs = sp.Link.DelayUs * int64(r.Pick(1, 3))
+		sp.Link.DupPm = r.Pick(50, 150)
+		sp.Link.HealUs = int64(r.Pick(20, 40)) * 1000000
+		off := uint32(1 + r.Intn(6)) //nolint:gosec
+		if r.Intn(3) != 0 {
+			// the hole sits just below the 2^32 wrap, what arrives behind it just above
+			sp.A.InitTSN = ^uint32(0) - off - uint32(r.Intn(3)) //nolint:gosec
+		}
+		sp.Link.HoleTSN = sp.A.InitTSN + off
+		sp.Link.HoleTimes = 2 + r.Intn(3)
+		sp.A.MinCwnd = uint32(r.Pick(0, 20000)) //nolint:gosec
 	case "reorder-span":
 		// thousands of 1-byte messages, first packets delayed for a long time: reordering spans a large part of the tracking window
 		sp.Streams = []vfStreamCfg{{SID: 1, Dir: 0, NMsgs: 1500 + r.Intn(2500), SizeMode: "one", Reader: "fast"}}
